@@ -26,23 +26,24 @@ type workerViolation struct {
 }
 
 type workerOut struct {
-	Property   string            `json:"property"`
-	Tier       string            `json:"tier"`
-	Runs       int               `json:"runs"`
-	NonTrivial int               `json:"nontrivial"`
-	Sigs       []string          `json:"sigs"` // schedule signatures of non-trivial runs
-	Stats      map[string]int    `json:"stats"`
-	VirtualMs  int64             `json:"virtual_ms"`
-	Steps      int64             `json:"steps"`
-	Violations []workerViolation `json:"violations"`
-	HarnessErr []string          `json:"harness_errors"`
-	Samples    []interface{}     `json:"samples"`
-	Leaked     int               `json:"leaked"`
-	NextSeed   int64             `json:"next_seed"`
-	Done       bool              `json:"done"`
-	WallS      float64           `json:"wall_s"`
-	Nondet     []int64           `json:"nondeterministic_seeds,omitempty"`
-	KnownHits  map[string]int    `json:"known_hits,omitempty"`
+	Property    string            `json:"property"`
+	Tier        string            `json:"tier"`
+	Runs        int               `json:"runs"`
+	NonTrivial  int               `json:"nontrivial"`
+	Sigs        []string          `json:"sigs"` // schedule signatures of non-trivial runs
+	Stats       map[string]int    `json:"stats"`
+	VirtualMs   int64             `json:"virtual_ms"`
+	Steps       int64             `json:"steps"`
+	Violations  []workerViolation `json:"violations"`
+	HarnessErr  []string          `json:"harness_errors"`
+	Samples     []interface{}     `json:"samples"`
+	Leaked      int               `json:"leaked"`
+	NextSeed    int64             `json:"next_seed"`
+	Done        bool              `json:"done"`
+	WallS       float64           `json:"wall_s"`
+	Nondet      []int64           `json:"nondeterministic_seeds,omitempty"`
+	KnownHits   map[string]int    `json:"known_hits,omitempty"`
+	Unconfirmed int               `json:"unconfirmed,omitempty"`
 }
 
 type knownFinding struct {
@@ -240,6 +241,15 @@ func TestSim(t *testing.T) {
 				}
 			}
 			if isKnown {
+				continue
+			}
+			// a violation is only reported if re-executing its recorded replay reproduces the
+			// same class (on a heavily loaded machine the Go scheduler may preempt a goroutine
+			// inside a step, which the simulator does not control)
+			confirm := runOnce(t, prop, tier, seed, res.rec)
+			if confirm.Class != res.Class {
+				wo.Unconfirmed++
+				wo.Stats["harness.unconfirmed_violations"]++
 				continue
 			}
 			v := workerViolation{Seed: seed, Class: res.Class, Msg: res.Msg, Step: res.Step}
